@@ -165,7 +165,16 @@ def run_part(out_dir, tier, v):
             continue
         # (R) saved contents against the default configuration
         def saves(rr, key="rd"):
-            return {os.path.basename(ld["path"]): [(h["id"], h["d"], h.get(key)) for h in ld["hist"] if h["op"] == "save"] for ld in rr["post"]["loaders"]}
+            # what is saved = the flattened rows (the object digest also covers fields that are not stored)
+            # the final content per item (the order and number of intermediate saves may vary from run to run)
+            out = {}
+            for ld in rr["post"]["loaders"]:
+                fin = {}
+                for h in ld["hist"]:
+                    if h["op"] == "save":
+                        fin[h["id"]] = h.get(key)
+                out[os.path.basename(ld["path"])] = sorted(fin.items())
+            return out
         if cn != "default":
             a, b = saves(base), saves(r)
             an, bn = saves(base, "rdn"), saves(r, "rdn")
@@ -176,8 +185,8 @@ def run_part(out_dir, tier, v):
                     k = next((i for i in range(min(len(la), len(lb))) if la[i] != lb[i]), min(len(la), len(lb)))
                     only_text = an.get(stem) == bn.get(stem)       # the saves differ only in '367.0' against '367'
                     v.violation("real:saved_content_depends_on_loader_config:%s:%s:%s%s" % (cmd, cn, stem, ":integer_written_as_float_text" if only_text else ""),
-                                {"project": name, "command": cmd, "config": dict(CONFIGS[cn]), "loader": stem, "saves_default": len(la), "saves_here": len(lb),
-                                 "first_difference_at_save": k, "default": la[k:k + 1], "here": lb[k:k + 1]})
+                                {"project": name, "command": cmd, "config": dict(CONFIGS[cn]), "loader": stem, "items_default": len(la), "items_here": len(lb),
+                                 "first_differing_item": k, "default": la[k:k + 1], "here": lb[k:k + 1]})
         # (T) one chain per loader object
         forest = Forest(root, "c15real_%s_%s_%s" % (name, cmd.replace("+", "_"), cn), max_nodes=10 ** 9)
         n_ids, n_conts = 1, 1
